@@ -4,8 +4,9 @@ import importlib, json, os, sys
 sys.path.insert(0, os.path.dirname(os.path.abspath(__file__)))
 ids = [json.loads(l)["id"] for l in open("properties.jsonl")]
 checks, na = [], []
+ready = set(open("props/READY.txt").read().split())   # properties whose check has been reviewed and is green
 for pid in ids:
-    if os.path.exists("props/%s.py" % pid):
+    if pid in ready and os.path.exists("props/%s.py" % pid):
         m = importlib.import_module("props." + pid)
         meta = getattr(m, "META", {})
         checks.append({
